@@ -30,7 +30,9 @@ def anchors(f):
             A["negotiate"] = path
         elif asy and any(t.split("::")[-1] == FIO and not t.startswith("&") for t in ins) and any("dyn MultiPeerBackend" in t for t in ins):
             A["driver"] = path
-        elif asy and any(t.startswith("impl Fn(") and type_holds(f, t, FIO) for t in ins) and type_holds(f, out, ASH):
+        elif asy and type_holds(f, out, ASH) and not path.startswith("<") and len(ins) >= 2:
+            # (only the listeners' start functions hand out a stop handle; the per-connection callback is their last parameter,
+            # an `impl Fn(..)` or a named generic)
             if any("Path" in t for t in ins):
                 A["accept_ipc"] = path
             elif any(t == "u16" for t in ins):
